@@ -178,7 +178,7 @@ fn check_state_sweep(case: &Value, obs: &mut Obs) -> Result<(), String> {
 }
 
 fn fixed_state_sweeps() -> Vec<Value> {
-    sweep_cases(3, 160)
+    sweep_cases(3, 300)
 }
 
 pub fn property() -> Property {
@@ -187,7 +187,7 @@ pub fn property() -> Property {
         subs: vec![
             Sub {
                 name: "state_sweep",
-                about: "accumulated state: for every W in 1..160 and each kind of keyed work of this operator family (padded decimal strings against numbers, hexadecimal strings against data, one-element arrays against strings), W hot items are evaluated twice, then a new item, the hot set again, another new item, and everything in reverse; every call against the reference model - a cache, pool or table with any capacity up to 160 is driven exactly over its boundary.",
+                about: "accumulated state: for every W in 1..300 and each kind of keyed work of this operator family (padded decimal strings against numbers, hexadecimal strings against data, one-element arrays against strings), W hot items are evaluated twice, then a new item, the hot set again, another new item, and everything in reverse; every call against the reference model - a cache, pool or table with any capacity up to 300 is driven exactly over its boundary.",
                 nontrivial: "every case.",
                 strategy: None,
                 fixed: Some(fixed_state_sweeps),
